@@ -71,6 +71,11 @@ def check_assoc(obj, rdm_tab, pat_tab, nan_cells, value_fn=enc, check_desc=True,
                     probs.append(('descriptors', f'{what} descriptor {key!r} has length {len(vals)} != {len(seq)}'))
                     continue
                 for pos, u in enumerate(seq):
+                    if key == 'note' and key not in tab[u] and vals[pos] is not None:
+                        # a descriptor only some of the combined objects carry: None for the items of the others
+                        probs.append(('descriptors', f'{what} uid {u} at pos {pos}: its source object has no descriptor {key!r}, '
+                                                     f'the result gives it {vals[pos]!r} (None expected)'))
+                        break
                     if key in tab[u] and vals[pos] != norm(tab[u][key]):
                         probs.append(('descriptors', f'{what} uid {u} at pos {pos}: descriptor {key!r} = '
                                                      f'{vals[pos]!r}, source has {norm(tab[u][key])!r}'))
